@@ -151,16 +151,16 @@ Qed.
 Lemma four_styles_agree_m pv jl full gk ms inp :
   finding_class_m pv gk ms inp = 0%N ->
   let r := run pv jl (as_dotted_m gk (mnorm ms)) inp in
-  (exists Tc, as_class_group_m full gk ms = Some Tc /\ run pv jl Tc inp = r)
-  /\ (exists Td, as_dataclass_m (dashes ++ gk) ms = Some Td /\ run pv jl Td inp = r)
+  (exists Tc, as_class_group_m false full gk ms = Some Tc /\ run pv jl Tc inp = r)
+  /\ (exists Td, as_dataclass_m false (dashes ++ gk) ms = Some Td /\ run pv jl Td inp = r)
   /\ run pv jl (as_inner_parser_m (dashes ++ gk) (mnorm ms)) inp = r.
 Proof.
   unfold finding_class_m. intros H. set (r := run pv jl (as_dotted_m gk (mnorm ms)) inp).
   destruct (well_formed_m gk ms) eqn:Ew; simpl in H; [|discriminate].
-  destruct (hyphen_defaults gk ms) eqn:Eh; [discriminate|].
   destruct (argv_names_group gk inp || _) eqn:Ea; [discriminate|].
   destruct (env_names_group gk inp || _) eqn:Ee; [discriminate|].
   destruct (config_group_text pv gk inp || _) eqn:Et; [discriminate|].
+  destruct (hyphen_defaults gk ms) eqn:Eh; [discriminate|].
   destruct (config_group_nonmap pv gk inp || _) eqn:Ec; [discriminate|].
   destruct (has_nested ms) eqn:En; [discriminate|]. clear H.
   apply orb_false_iff in Ea, Ee, Ec. destruct Ea as [Ea _]. destruct Ee as [Ee _]. destruct Ec as [Ec _].
@@ -181,7 +181,7 @@ Proof.
   assert (Hdash : existsb (fun o => isSome (o_over o)) os = true -> has_dash gk = false).
   { intro Ho. unfold hyphen_defaults in Eh. rewrite ms_has_over_leaves, Ho in Eh. simpl in Eh.
     rewrite andb_true_r in Eh. exact Eh. }
-  assert (Eclass : forall fl, as_class_group_m fl gk (map MLeaf os)
+  assert (Eclass : forall fl, as_class_group_m false fl gk (map MLeaf os)
                               = Some (with_load gk (as_dotted gk (map eff (onorm os))))).
   { intro fl. apply class_group_m_flat; assumption. }
   assert (Erun : run pv jl (with_load gk (as_dotted gk (map eff (onorm os)))) inp = r).
@@ -197,8 +197,8 @@ Qed.
 Lemma grouped_tables_equal_m full gk os :
   well_formed_m gk (map MLeaf os) = true -> hyphen_defaults gk (map MLeaf os) = false ->
   let T := with_load gk (as_dotted_m gk (mnorm (map MLeaf os))) in
-  as_class_group_m full gk (map MLeaf os) = Some T
-  /\ as_dataclass_m (dashes ++ gk) (map MLeaf os) = Some T
+  as_class_group_m false full gk (map MLeaf os) = Some T
+  /\ as_dataclass_m false (dashes ++ gk) (map MLeaf os) = Some T
   /\ as_inner_parser_m (dashes ++ gk) (mnorm (map MLeaf os)) = T.
 Proof.
   intros Ew Eh T. unfold T, as_dotted_m. rewrite mnorm_leaves, flat_leaves.
@@ -344,9 +344,9 @@ Definition w_nested_members : list member :=
 Lemma hyphen_key_default_override_refuted :
   exists full gk ms,
     finding_class_m (fun s => VStr s) gk ms {| i_env := []; i_entry := EArgs [] |} = 8%N
-    /\ as_class_group_m full gk ms = None
-    /\ as_dataclass_m (dashes ++ gk) ms = None
-    /\ as_class_group_m full (gdest gk) ms = Some (as_inner_parser_m (dashes ++ gdest gk) (mnorm ms)).
+    /\ as_class_group_m false full gk ms = None
+    /\ as_dataclass_m false (dashes ++ gk) ms = None
+    /\ as_class_group_m true full gk ms = Some (as_inner_parser_m (dashes ++ gk) (mnorm ms)).
 Proof. exists false, w_myg, w_over_members. repeat split; vm_compute; reflexivity. Qed.
 
 (* the hypotheses of the member theorems are satisfiable, overrides included; and on a NESTED declaration the model
@@ -358,8 +358,8 @@ Proof. split; vm_compute; reflexivity. Qed.
 
 Lemma nested_tables_example :
   well_formed_m w_g w_nested_members = true
-  /\ as_class_group_m false w_g w_nested_members = Some (as_inner_parser_m (dashes ++ w_g) (mnorm w_nested_members))
-  /\ as_dataclass_m (dashes ++ w_g) w_nested_members = Some (as_inner_parser_m (dashes ++ w_g) (mnorm w_nested_members))
+  /\ as_class_group_m false false w_g w_nested_members = Some (as_inner_parser_m (dashes ++ w_g) (mnorm w_nested_members))
+  /\ as_dataclass_m false (dashes ++ w_g) w_nested_members = Some (as_inner_parser_m (dashes ++ w_g) (mnorm w_nested_members))
   /\ leaf_rows_of (as_inner_parser_m (dashes ++ w_g) (mnorm w_nested_members))
      = t_rows (as_dotted_m w_g (mnorm w_nested_members)).
 Proof. repeat split; vm_compute; reflexivity. Qed.
